@@ -149,37 +149,46 @@ func edgeTrace(c *an.Ctx) *edgeTraceResult {
 			switch x := in.(type) {
 			case *ssa.MapUpdate:
 				ap := an.AccessPath(x.Map)
-				if !an.TypeIs(st.Root(ap.Base).Type(), "pkg/scheduler", "ExecutionGraph") && !an.TypeIs(ap.Base.Type(), "pkg/scheduler", "ExecutionGraph") {
+				if ap.Base == nil || (!an.TypeIs(st.Root(ap.Base).Type(), "pkg/scheduler", "ExecutionGraph") && !an.TypeIs(ap.Base.Type(), "pkg/scheduler", "ExecutionGraph")) {
 					return ""
 				}
-				field := ap.LastField()
-				if field != "from" && field != "to" {
-					return ""
-				}
-				key := classify(x.Key, st)
-				val := "?"
-				for _, src := range an.Sources(x.Value) {
-					call, ok := src.(*ssa.Call)
-					if !ok {
+				roles := resolveEdgeRoles(p)
+				var events []string
+				for _, u := range roles.edgeUpdates(x) {
+					if u.role == "" {
 						continue
 					}
-					if b, ok := call.Call.Value.(*ssa.Builtin); !ok || b.Name() != "append" {
-						continue
-					}
-					baseOK := false
-					if lk, ok := an.Resolve(call.Call.Args[0]).(*ssa.Lookup); ok {
-						if an.AccessPath(lk.X).LastField() == field && classify(lk.Index, st) == key {
-							baseOK = true
+					key := classify(u.key, st)
+					// (a struct entry is stored back under the key it was read with)
+					if u.loc.sub >= 0 {
+						if k0 := entryKeyOf(x); k0 == nil || classify(k0, st) != key {
+							events = append(events, fmt.Sprintf("%s[%s]+=replaces", u.role, key))
+							continue
 						}
 					}
-					elemsV := an.VariadicElems(call.Call.Args[1])
-					if baseOK && len(elemsV) == 1 {
-						val = classify(elemsV[0], st)
-					} else if !baseOK {
-						val = "replaces"
+					val := "?"
+					for _, src := range an.Sources(u.val) {
+						call, ok := src.(*ssa.Call)
+						if !ok {
+							continue
+						}
+						if b, ok := call.Call.Value.(*ssa.Builtin); !ok || b.Name() != "append" {
+							continue
+						}
+						baseOK := false
+						if loc, k, ok := appendBaseRead(call.Call.Args[0]); ok && loc == u.loc && classify(k, st) == key {
+							baseOK = true
+						}
+						elemsV := an.VariadicElems(call.Call.Args[1])
+						if baseOK && len(elemsV) == 1 {
+							val = classify(elemsV[0], st)
+						} else if !baseOK {
+							val = "replaces"
+						}
 					}
+					events = append(events, fmt.Sprintf("%s[%s]+=%s", u.role, key, val))
 				}
-				return fmt.Sprintf("%s[%s]+=%s", field, key, val)
+				return strings.Join(events, "|")
 			case *ssa.Call:
 				if res.detector == nil {
 					return ""
